@@ -345,3 +345,46 @@ def rule_R_PURE(ctx, repo):
             ctx.fail('R-PURE', '%s::%s' % (m.rel, q), 'caller-owned %s mutated%s' % (recv, ' via ' + via if via else ''),
                      msg + ': computing a key changes the arguments the function then receives (and the caller\'s own data)', '%s:%d' % (m.rel, node.lineno))
     ctx.ob('R-PURE', 'in-place mutation sites examined', True, n=max(1, n))
+
+
+def rule_R_DEEP(ctx, repo):
+    """deep rounding reaches floats at any depth: dict values and the elements of every other iterable are rounded recursively"""
+    m, closures = factory_closures(repo)
+    found = {('dict', 'args'): False, ('dict', 'kwds'): False, ('iter', 'args'): False, ('iter', 'kwds'): False}
+    qual = None
+    for fi, node, env, eng, is_main in closures:
+        if fi.name != 'deep_round_factory' or not is_main:
+            continue
+        qual = '%s.%s' % (fi.qual, node.name)
+        st = St(env=dict(env), frames=(node.name,))
+        eng._bind_params_symbolic(node, st, None)
+        outs = eng.exec_block(node.body, st)
+        va = ('param', node.args.vararg.arg) if node.args.vararg else None
+        for o in outs:
+            truth = o.st.facts.get('truth', {})
+            for e in o.st.events:
+                if e.kind != 'SETITEM' or e.depth > 0:
+                    continue
+                val = e.args[2]
+                rec = contains_term(val, lambda t: t[0] == 'call' and t[1][0] == 'opaque' and t[1][1] == node.name)
+                if not rec:
+                    continue
+                idx = e.args[1]
+                loop = 'args' if contains_term(idx, lambda t: t[0] == 'iter' and contains_term(t[1], lambda u: u == va)) else 'kwds'
+                # which guard holds for the element on this path
+                for t, b in truth.items():
+                    if not b or t[0] != 'call':
+                        continue
+                    if t[1] == ('lib', 'isinstance') and len(t[2]) == 2 and 'dict' in class_names(t[2][1]) and contains_term(val, lambda u: u == t[2][0]):
+                        found[('dict', loop)] = True
+                    if t[1][0] == 'lib' and libname(t[1]) == 'isiterable' and contains_term(val, lambda u: u == ('star', t[2][0])):
+                        found[('iter', loop)] = True
+    if qual is None:
+        raise AnalysisError('anchor vanished: deep_round_factory.deep_round')
+    for (kind, loop), ok in sorted(found.items()):
+        ctx.ob('R-DEEP', 'deep_round %s in %s' % (kind, loop), ok)
+        if not ok:
+            ctx.fail('R-DEEP', qual, '%s elements of %s not rounded recursively' % (kind, loop),
+                     'deep_round does not round the %s found in its %s recursively: floats nested at depth inside such containers keep their digits, so calls that '
+                     'should share an entry get different keys' % ('values of dicts' if kind == 'dict' else 'elements of lists/tuples/sets', 'positional arguments' if loop == 'args' else 'keyword arguments'),
+                     '%s:%d' % (m.rel, 1))
